@@ -58,6 +58,50 @@ CHECKS = {
               "with another PYTHONHASHSEED, repeated calls) is one trace event that TLC recomputes and compares."),
         note="trusted: SMHasher constants identify the reference algorithms; TLC Bitwise overrides",
         technique="TLA+ transcription of the reference hashes checked by TLC; trace validation of recorded calls"),
+    "C05": dict(
+        category="model_checking", design_ref="DESIGN.md 4.5",
+        text=("Action properties AddEffect (linear) and AddEffectLog (log) are checked by TLC on every add transition of the small "
+              "instances (states produced by merges included); every add edge is replayed on the real linear class at the real "
+              "ceiling; recorded histories of the three real classes are validated step by step, log draws placed just below/at/"
+              "above the decision boundary so that every counter outcome, the one-counter-per-row rule and n_added are decided."),
+        note="trusted: TLC, CPython float pow as probability oracle (1e-12 margins), probe-observed placement",
+        technique="TLA+ action properties checked by TLC; edge replay; trace validation with placed draws"),
+    "C06": dict(
+        category="model_checking", design_ref="DESIGN.md 4.6",
+        text=("LowerLog/ReservedExact/Fresh on the dyadic log instance (TLC exhaustive); exact Markov-chain check E[decoded]=N "
+              "(LogChain.tla); one validated implementation transition per counter value x configuration x placed draw "
+              "{0, P(1-1e-12), P(1+1e-12), 1-2^-53} (all 256 log8 counters per configuration, log16 stratified in quick / all 65536 "
+              "in thorough); decode table vs closed formula; histories with forced batch refills validating pointer movement, "
+              "refill timing and freshness of the new batch."),
+        note="uniformity of the generators is trusted; unbiasedness follows from the validated increment law + decode law + freshness (no statistical test)",
+        technique="TLA+ spec + TLC; per-transition trace validation with placed draws; exact Markov chain in TLA+"),
+    "C09": dict(
+        category="model_checking", design_ref="DESIGN.md 4.9",
+        text=("MergeEffect/MergeAlgebra (linear) and MergeEffectLog on the small instances by TLC; for every log8 configuration of a "
+              "grid all 256x256 counter pairs are merged for real (tables set directly) and each cell is validated against "
+              "LogMergeOK (nearest decoded value, exact in the reserved range, ceiling at max_count) with decoded values as exact "
+              "integers; log16: every counter vs empty/itself plus sampled pairs; linear and log histories with merges validated."),
+        note="decode observed from the implementation (cross-checked with the closed formula in C06); either neighbour accepted within 2^-30 of a midpoint",
+        technique="TLA+ spec + TLC; bulk trace validation of merge cells with exact arithmetic"),
+    "C12": dict(
+        category="model_checking", design_ref="DESIGN.md 4.12",
+        text=("Batch entry points are folds of the single add in every module; TLC checks add(k,v) = v unit adds and batch = loop as "
+              "state identities on every reachable state; every batch edge is replayed as one real call; batch-heavy histories of "
+              "all five classes (lists with repeats, dicts, ngrams with n around len, __getitem__) are validated event by event."),
+        note="log sketches: given the recorded draws", technique="TLA+ fold definitions + TLC identities; edge replay; trace validation"),
+    "C15": dict(
+        category="model_checking", design_ref="DESIGN.md 4.15",
+        text=("MergeCompat.tla defines Compatible per family; every ordered pair of a configuration grid (single-parameter variants, "
+              "all counter types at equal shape, non-empty operands) is merged for real and TLC validates outcome (TypeError iff "
+              "incompatible) and bit-for-bit digests of both operands before/after."),
+        note="sha256 digests of all state arrays stand for bit-for-bit equality", technique="TLA+ predicate + trace validation over the full grid"),
+    "C18": dict(
+        category="model_checking", design_ref="DESIGN.md 4.18",
+        text=("Monotone/Saturate action properties on the linear, log and heavy-hitter modules with ceilings reached within 2-3 "
+              "operations (TLC exhaustive); scaled edge replay at exactly 2^32-1; validated histories landing within +-3 of the ceiling "
+              "and continuing after saturation; constructor grid (max_count 300..2^63 x num_reserved 0..UMax-1): ValueError or the "
+              "observed ceiling decodes to max_count (1e-6), decided by TLC on exact integers."),
+        note="ill-conditioned grid points (max_count - nr within 1% of UMax - nr) excluded", technique="TLA+ action properties + TLC; edge replay; trace validation"),
 }
 
 NOT_APPLICABLE = {
